@@ -348,7 +348,7 @@ func ruleFetchLoopEnd(p *Prog, r *Result) {
 		li := 0
 		for _, L := range loops {
 			var fetches []*ssa.Call
-			for b := range L.Body {
+			for _, b := range orderedBlocks(fn, L.Body) {
 				for _, in := range b.Instrs {
 					if c, ok := in.(*ssa.Call); ok && isRowFetch(p, c) {
 						// only fetches whose innermost loop is L
@@ -375,7 +375,7 @@ func ruleFetchLoopEnd(p *Prog, r *Result) {
 				}
 				// an exit edge (or return) inside the loop guarded by: first == nil, or len(first) == 0
 				ended := false
-				for b := range L.Body {
+				for _, b := range orderedBlocks(fn, L.Body) {
 					for si := range b.Succs {
 						a, ok := edgeAtom(b, si)
 						if !ok {
